@@ -417,3 +417,21 @@ def all_numbers_finite(rep):
             return all(walk(v) for v in x)
         return True
     return walk(rep)
+
+
+def printed_close(printed, value, fixed=False):
+    """the tolerance of C19: 5e-6 relative (seven digits), 5e-5 for magnitudes in [0.1, 1)
+    (six digits), and 1e-6 absolute for fixed-point fields"""
+    d = abs(printed - value)
+    a = abs(value)
+    if d <= 5e-6 * a:
+        return True
+    if 0.0999999 <= a < 1.0 and d <= 5e-5 * a:
+        return True
+    if fixed and d <= 1.0000001e-6:
+        return True
+    return False
+
+
+def cprinted_close(printed, value, fixed=False):
+    return printed_close(printed.real, value.real, fixed) and printed_close(printed.imag, value.imag, fixed)
